@@ -661,6 +661,18 @@ class Runner:
             if "error" in sp or lean_bad != py_bad:
                 self.res["obligations"].append(("python oracle for P == Lean Spec.scopeOk", False,
                                                 "lean %r python %r on %s" % (lean_bad, py_bad, json.dumps(obs)[:300])))
+        # the reader's own rule (anchor: edif_namespace.py:26-38) must agree with the oracle / Lean Spec
+        try:
+            from spydrnet.plugins.namespace_manager.edif_namespace import EdifNamespace
+            for o in obs:
+                idt = o["ident"]
+                if o["assigned"] and isinstance(idt, str) and idt and all(32 <= ord(c) < 127 for c in idt):
+                    if bool(EdifNamespace._check_EDIF_identifier(idt)) != (illegal_kind(idt) is None):
+                        self.res.corr_mismatch("EdifNamespace._check_EDIF_identifier == Spec.checkEdifIdentifier",
+                                               {"level": "free", "scope": scope if scope in SCOPES else "instances", "sibs": pre},
+                                               impl=bool(EdifNamespace._check_EDIF_identifier(idt)), model=illegal_kind(idt) is None)
+        except ImportError:
+            pass
         fails = fails + oracle_tokens(obs)
         for sig, i, detail in fails:
             sigs.add(sig)
@@ -1114,13 +1126,13 @@ def run(ctx):
     corpus = load_corpus()
     nsh = 16
     per = ctx.scale(350, 6000)
-    budget = ctx.scale(55, 900)
-    deadline = time.time() + min(budget, max(10, ctx.time_left() - 30))
+    # wall-clock plan (measured from the start of the check): generated cases, then the enumeration
+    deadline = ctx.t0 + ctx.scale(62, 800)
     args = []
     for i in range(nsh):
         args.append((ctx.seed, i, ctx.tier, per, corpus if i == 0 else [], deadline))
     run_shards(ctx, shard, args)
-    run_shards(ctx, exhaustive_shard, [(ctx.seed, i, nsh, ctx.tier, time.time() + ctx.scale(40, 400)) for i in range(nsh)])
+    run_shards(ctx, exhaustive_shard, [(ctx.seed, i, nsh, ctx.tier, ctx.t0 + ctx.scale(84, 1050)) for i in range(nsh)])
     if ctx.tier == "thorough":
         lean.leanchecker(ctx, MODULES)
     # step 3 of the contract: divergence without a failing input -> search around it
